@@ -276,6 +276,65 @@ func regrowSites(p *Prog, inScope func(*ssa.Function) bool) []regrowSite {
 						}
 					}
 				}
+				// no way round: on the edge of the cap() test where the retained
+				// capacity suffices, every path to a return goes through the regrow
+				// (or another assignment of the variable). A shortcut such as
+				// "same length as last time: keep it" leaves the previous content.
+				if site.Zeroed && f != nil && !grown {
+					stores := map[*ssa.BasicBlock]bool{sl.Block(): true}
+					for _, b2 := range fn.Blocks {
+						for _, i2 := range b2.Instrs {
+							if st, ok := i2.(*ssa.Store); ok {
+								if fa, ok := st.Addr.(*ssa.FieldAddr); ok {
+									fields, r2, elem := fieldChain(fa)
+									if len(fields) > 0 && !elem && fields[len(fields)-1] == f && r2 == root {
+										stores[b2] = true
+									}
+								}
+							}
+						}
+					}
+					for _, g := range fn.Blocks {
+						iff, ok := g.Instrs[len(g.Instrs)-1].(*ssa.If)
+						if !ok {
+							continue
+						}
+						cmp, ok := iff.Cond.(*ssa.BinOp)
+						if !ok {
+							continue
+						}
+						isCap := func(v ssa.Value) bool {
+							if cv, ok := v.(*ssa.Convert); ok {
+								v = cv.X
+							}
+							c, ok := v.(*ssa.Call)
+							if !ok {
+								return false
+							}
+							bi, isB := c.Call.Value.(*ssa.Builtin)
+							return isB && bi.Name() == "cap" && same(c.Call.Args[0])
+						}
+						if !isCap(cmp.X) && !isCap(cmp.Y) {
+							continue
+						}
+						for _, e := range g.Succs {
+							if !(e == sl.Block() || e.Dominates(sl.Block())) || stores[e] && e != sl.Block() {
+								continue
+							}
+							if e == sl.Block() {
+								continue // the regrow is the first thing on this edge
+							}
+							for rb := range reachableAvoidingSet(e, stores, nil) {
+								if len(rb.Instrs) > 0 {
+									if _, isRet := rb.Instrs[len(rb.Instrs)-1].(*ssa.Return); isRet && rb != fn.Recover {
+										site.Zeroed = false
+										site.How = "a path from the capacity test (" + p.Pos(iff.Pos()) + ") reaches a return without regrowing or zeroing"
+									}
+								}
+							}
+						}
+					}
+				}
 				out = append(out, site)
 			}
 		}
